@@ -151,6 +151,7 @@ static const char *mode_name[M_N] = { "accept_task", "connect_task", "connect_ex
 static struct {
 	int	mode;
 	int	timeout;
+	int	evfl;		/* accept/notify: 0 = as the *_create() call registers it, 1 = the same handler registered with TP_F_DISPATCH */
 	int	policy;		/* accept/notify: 0 continue, k>0 stop after the k-th delivery; connect_ex: 0 continue, 1 stop at first failure report */
 	int	nosettle;	/* connect: first step is played before the loop ran once */
 	int	kind;		/* connect: kind of the address */
@@ -195,7 +196,7 @@ static void
 case_desc(char *b, size_t n) {
 	int i; size_t o;
 	static const char *opn[] = { "?", "fire", "conn", "burst", "srvclose", "data", "close", "halfclose", "srvdata" };
-	o = (size_t)snprintf(b, n, "%s tmo=%d policy=%d", mode_name[C.mode], C.timeout, C.policy);
+	o = (size_t)snprintf(b, n, "%s tmo=%d policy=%d%s", mode_name[C.mode], C.timeout, C.policy, C.evfl ? " dispatch" : "");
 	if (M_CONNECT == C.mode) o += (size_t)snprintf(b + o, n - o, " addr=%c nosettle=%d", kind_ch[C.kind], C.nosettle);
 	if (M_CONNECT_EX == C.mode) {
 		o += (size_t)snprintf(b + o, n - o, " addrs=");
@@ -382,6 +383,11 @@ apply(const hstep_t *s) {
 	switch (s->op) {
 	case H_FIRE:
 		fires_total ++;
+		/* "inactivity longer than the configured timeout is reported": an accept / notify task that was told to continue
+		 * waits with its timeout configured, so the library's last timerfd_settime() must have armed the timer */
+		if ((M_ACCEPT == C.mode || M_NOTIFY == C.mode) && C.timeout && NULL != task && !task_dead && !case_failed &&
+		    !cur_armed)
+			cfail("timeout-not-armed", "the task waits with a timeout configured but its timer is %s", (cur_tfd < 0) ? "gone" : "disarmed");
 		if (cur_tfd < 0 || !cur_armed) break;	/* also after stop: a timer the library left armed is part of the environment */
 		memset(&its, 0, sizeof(its)); its.it_value.tv_nsec = 1;
 		__real_timerfd_settime(cur_tfd, 0, &its, NULL);
@@ -478,7 +484,10 @@ run_case(void) {
 
 	switch (C.mode) {
 	case M_ACCEPT:
-		rc = tp_task_accept_create(t0, (uintptr_t)lsn[K_U], 0, C.timeout ? TIMEOUT_MS : 0, accept_cb, NULL, &task);
+		if (C.evfl)
+			rc = tp_task_create_start(t0, (uintptr_t)lsn[K_U], tp_task_accept_handler, 0, TP_EV_READ, TP_F_DISPATCH, C.timeout ? TIMEOUT_MS : 0, 0, NULL, (tp_task_cb)accept_cb, NULL, &task);
+		else
+			rc = tp_task_accept_create(t0, (uintptr_t)lsn[K_U], 0, C.timeout ? TIMEOUT_MS : 0, accept_cb, NULL, &task);
 		break;
 	case M_CONNECT:
 		conn_fd = socket(AF_INET, SOCK_STREAM | SOCK_NONBLOCK, 0);
@@ -512,7 +521,10 @@ run_case(void) {
 	case M_NOTIFY:
 		if (0 != socketpair(AF_UNIX, SOCK_STREAM | SOCK_NONBLOCK, 0, sk)) { vh_fail("harness", "socketpair"); return; }
 		peer_open = 1;
-		rc = tp_task_notify_create(t0, (uintptr_t)sk[0], 0, TP_EV_READ, C.timeout ? TIMEOUT_MS : 0, notify_cb, NULL, &task);
+		if (C.evfl)
+			rc = tp_task_create_start(t0, (uintptr_t)sk[0], tp_task_notify_handler, 0, TP_EV_READ, TP_F_DISPATCH, C.timeout ? TIMEOUT_MS : 0, 0, NULL, (tp_task_cb)notify_cb, NULL, &task);
+		else
+			rc = tp_task_notify_create(t0, (uintptr_t)sk[0], 0, TP_EV_READ, C.timeout ? TIMEOUT_MS : 0, notify_cb, NULL, &task);
 		break;
 	}
 	if (0 != rc) { cfail("start-refused", "rc=%d", rc); }
@@ -650,9 +662,10 @@ main(int argc, char **argv) {
 	net_setup();
 	memset(&C, 0, sizeof(C)); C.destroy_at = -1; C.advance_at = -1;
 	C.mode = M_ACCEPT;
-	for (C.timeout = 0; C.timeout < 2; C.timeout ++) for (C.policy = 0; C.policy <= 2; C.policy ++) {
+	for (C.evfl = 0; C.evfl < 2; C.evfl ++) for (C.timeout = 0; C.timeout < 2; C.timeout ++) for (C.policy = 0; C.policy <= 2; C.policy ++) {
 		C.nh = 0; gen_hist(acc_ops, acc_ks, 3, 0, vh_thorough ? 7 : 5);
 	}
+	C.evfl = 0;
 	C.mode = M_CONNECT; C.policy = 0;
 	for (C.kind = 0; C.kind < 3; C.kind ++) for (C.timeout = 0; C.timeout < 2; C.timeout ++) for (C.nosettle = 0; C.nosettle < 2; C.nosettle ++) {
 		if (K_P == C.kind && !p_available) continue;
@@ -660,9 +673,10 @@ main(int argc, char **argv) {
 	}
 	C.nosettle = 0; C.kind = 0;
 	C.mode = M_NOTIFY;
-	for (C.timeout = 0; C.timeout < 2; C.timeout ++) for (C.policy = 0; C.policy <= 2; C.policy ++) {
+	for (C.evfl = 0; C.evfl < 2; C.evfl ++) for (C.timeout = 0; C.timeout < 2; C.timeout ++) for (C.policy = 0; C.policy <= 2; C.policy ++) {
 		C.nh = 0; gen_hist(not_ops, not_ks, 5, 0, vh_thorough ? 6 : 5);
 	}
+	C.evfl = 0;
 	{
 		static const uint8_t cr_ops[4] = { H_SRVDATA, H_SRVDATA, H_FIRE, H_SRVCLOSE }, cr_ks[4] = { 1, 5, 0, 0 };
 		C.mode = M_CONNRECV; C.policy = 0;
